@@ -41,7 +41,14 @@ MENU = ['x.py', 'x.pyc', 'x.pyo', 'y.pyc', 'z.pyo', '.pyc', 'pyc', 'X.PYC',
         'sub/x.pyc', 'sub/deep/x.pyo', 'da[t]a/o.pyc', 'da[t]a/inner/p.pyo',
         # names that mean something to printf / str.format / a terminal
         '100%.pyo', 'my%20docs/r.pyc', '%s/%d.pyc', '{0}.pyc', 'caf\xe9.pyc',
-        'a b/c d.pyc', 'node_modules/deep/m.pyo']
+        'a b/c d.pyc', 'node_modules/deep/m.pyo',
+        # a line feed in the name: before the suffix (an orphan) and after it
+        # (a look-alike that is no byte-code file)
+        'a\nb.pyc', 'x.pyc\n', 'y.pyo\n',
+        # orphans that are symbolic links: to a file outside every searched
+        # directory, and to a .pyc that has its source beside it (the LINK is
+        # the orphan; what it points to is somebody else's file)
+        'lnk_out.pyc=>@store/legacy.bin', 'lnk_in.pyo=>sub/kept.pyc']
 CORE = 12        # the flat names at the front of the menu
 OPTS = {
     'path': lambda r: ['--path', r],
@@ -120,12 +127,30 @@ def setup_worker():
     atexit.register(env.rmtree, ROOT)
 
 
+def expand(entries):
+    """-> (files to create, {link name: target}) for menu entries"""
+    files, links = [], {}
+    for e in entries:
+        if '=>' in e:
+            name, target = e.split('=>')
+            links[name] = target
+            if not target.startswith('@'):
+                files.append(target)
+                files.append(target[:-1])        # its source, beside it
+        else:
+            files.append(e)
+    return files, links
+
+
 def snapshot(root):
     d = {}
     for dp, dn, fn in os.walk(root):
         for f in fn:
             p = os.path.join(dp, f)
-            st = os.stat(p)
+            st = os.lstat(p)
+            if os.path.islink(p):
+                d[os.path.relpath(p, root)] = ('link', os.readlink(p))
+                continue
             with open(p, 'rb') as fh:
                 h = hashlib.sha256(fh.read()).hexdigest()
             d[os.path.relpath(p, root)] = (st.st_size, h, st.st_mtime_ns)
@@ -136,6 +161,8 @@ def snapshot(root):
 
 def classify(entries, ok):
     """-> (must, may) sets of relative paths."""
+    fs, links = expand(entries)
+    entries = fs + list(links)
     files = set(entries)
     must, may = set(), set()
     if ok in ('k', 'usecompiled', 'k+two', 'k+j2', 'usecompiled+resumed'):
@@ -182,16 +209,29 @@ def run_case(case):
     env.rmtree(root)
     os.makedirs(os.path.join(root, 'sub'))     # search paths must exist
     os.makedirs(os.path.join(root, 'sub_compat'))
-    for e in entries:
+    store = os.path.join(ROOT, 'store')
+    env.rmtree(store)
+    os.makedirs(store)
+    fs, links = expand(entries)
+    for e in fs:
         p = os.path.join(root, e)
         os.makedirs(os.path.dirname(p), exist_ok=True)
         with open(p, 'w') as f:
-            f.write('# %s\n' % e)
+            f.write('# %r\n' % e)
+    for name, target in links.items():
+        if target.startswith('@'):
+            tp = os.path.join(ROOT, target[1:])
+            with open(tp, 'w') as f:
+                f.write('somebody else\'s file\n')
+        else:
+            tp = os.path.join(root, target)
+        os.symlink(tp, os.path.join(root, name))
     if link:
         name, target = link.split('->')
         os.symlink(os.path.join(root, os.path.dirname(name), target) if target == '..' else os.path.join(root, target),
                    os.path.join(root, name))
     before = snapshot(root)
+    before.update({'@store/' + k: v for k, v in snapshot(store).items()})
     if ok in ('j2', 'k+j2', 'usecompiled+resumed'):
         res = runrt.run_world(CHILD_WORLD, OPTS[ok](root), probe=False)
         if not res.children:
@@ -199,6 +239,7 @@ def run_case(case):
     else:
         res = runrt.run_plain(OPTS[ok](root) + ['--list-tests'], roots=[root])
     after = snapshot(root)
+    after.update({'@store/' + k: v for k, v in snapshot(store).items()})
     viol = []
     sig = {'opt': ok}
     if res.escaped:
@@ -216,7 +257,7 @@ def run_case(case):
     for p in sorted(created | changed):
         viol.append({'clause': 'other_file_touched', 'sig': dict(sig, name=os.path.basename(p)),
                      'detail': 'tree=%s opts=%s: %s created/changed' % (entries, ok, p)})
-    nt = any(e.lower().endswith(('.pyc', '.pyo')) for e in entries)
+    nt = any(e.split('=>')[0].lower().endswith(('.pyc', '.pyo')) for e in entries)
     return {'nontrivial': nt, 'violations': viol,
             'outcome': (len(deleted) > 0, ok),
             'counters': {'trees_with_deletion': 1 if deleted else 0}}
